@@ -23,7 +23,7 @@ PROP = "C09"
 
 
 def acyclic(g):
-    edges = {n: [e["to"] for e in g["edges"][n]] for n in g["edges"]}
+    edges = {n: [t for e in g["edges"][n] for t in [e["to"]] + list(e.get("also") or [])] for n in g["edges"]}
     state = {}
 
     def visit(n):
